@@ -16,7 +16,6 @@ import (
 	"fmt"
 	"os"
 	"regexp"
-	"runtime"
 	"sort"
 	"strconv"
 	"strings"
@@ -75,11 +74,10 @@ func vRunArmed(hist []VEntry, e VEntry, script map[int]uint64, clockShift int64)
 	rt.Disarm()
 	n := len(rec.Choices)
 	rec.Arm()
-	// (one processor: a goroutine that the entry starts cannot run, let alone finish, before we count)
-	prevProcs := runtime.GOMAXPROCS(1)
+	// (the worker runs with GOMAXPROCS=1, set by the driver: a goroutine that the entry starts cannot run, let
+	// alone finish, before it is counted)
 	st := in.Apply(e)
 	spawned := st.Spawned
-	runtime.GOMAXPROCS(prevProcs)
 	rt.Disarm()
 	rt.SetClockOffset(0)
 	return vC01Run{obs: vObserve(&st, in.Srv), choices: rec.Choices, prefixN: n, spawned: spawned}
